@@ -267,6 +267,11 @@ def setitem(ip, o, idx, v):
         m = ip.find_method(o, '__setitem__')
         if m is not None:
             return ip.call(m, [idx, v], {})
+    if is_v(o):
+        # element store into an opaque array: its content is not tracked (flag)
+        ip.flags.add('OPAQUE_MUT')
+        ip.log.append(('opaque-store', o))
+        return
     raise Unsupported('item assignment on %r' % (o,))
 
 
@@ -371,7 +376,7 @@ def binop(ip, op, a, b):
         if a is None or b is None:
             raise PyRaise(ExcVal('TypeError', ('unsupported operand None',)))
         name = {'Add': 'add', 'Sub': 'sub', 'Mult': 'mul', 'Div': 'div', 'MatMult': 'matmul',
-                'Pow': 'pow', 'Mod': 'mod', 'FloorDiv': 'floordiv'}.get(type(op).__name__)
+                'Pow': 'pow', 'Mod': 'mod', 'FloorDiv': 'floordiv', 'BitXor': 'xor'}.get(type(op).__name__)
         if name is None:
             raise Unsupported('opaque op %s' % type(op).__name__)
         if name == 'matmul' and ip.registry is not None and ip.registry.matmul is not None:
@@ -1025,6 +1030,10 @@ def b_isinstance(ip, args, kw):
                   sort=z3.BoolSort())
     if isinstance(v, (I.Closure, I.BoundMethod, I.Builtin, FuncRef)):
         return False
+    if isinstance(v, (ClassRef, I.TypeTok, I.ExcClass, ModuleRef)):
+        return 'type' in names
+    if callable(v) and getattr(v, '_pyvc_model', False):
+        return False
     raise Unsupported('isinstance(%r, ...)' % (v,))
 
 
@@ -1167,6 +1176,9 @@ def b_callable(ip, args, kw):
     if isinstance(v, Obj):
         return ip.find_method(v, '__call__') is not None
     if is_v(v):
+        known = ip.ghost.get('vtypes', {}).get(str(v))
+        if known is not None:
+            return 'callable' in known
         return uf('callable', v, sort=z3.BoolSort())
     return False
 
